@@ -183,14 +183,14 @@ class Tracer:
         self.sent = False
         self.nosig_at = None
         self.late = False
-        self.sigobj = None
+        self.depth = 0             # SignalHandler.block() contexts entered (any instance), from the class-level wrapper
 
     # one tick per event, BEFORE the event takes effect; the signal goes out at tick `at`
     def tick(self):
         k = self.n
         self.n += 1
         if k == self.at:
-            self.nosig_at = bool(self.sigobj._nosig) if self.sigobj is not None else None
+            self.nosig_at = self.depth > 0
             self.sent = True
             os.kill(os.getpid(), self.signum)
             _nop()                 # a call: CPython runs pending handlers here at the latest
@@ -263,12 +263,24 @@ for _op in TRACED_OPS:
     setattr(FW, _op, _mk(_op))
 
 
+def fresh_dispositions():
+    """the dispositions of a freshly started Python process: SIGINT -> default_int_handler, SIGTERM/SIGHUP -> SIG_DFL
+    (what a console script sees when its entry_point() / SignalHandler.init() runs)"""
+    for s in SIGNAMES:
+        signal.signal(getattr(signal, s), signal.default_int_handler if s == "SIGINT" else signal.SIG_DFL)
+
+
 def install(T, mod):
-    """patch open / SignalHandler.block / SignalHandler._handler / OptionParser.parse_args; returns undo()"""
+    """patch open / OptionParser.parse_args and, ON THE CLASS (whatever instance a tool uses, wherever it keeps it),
+    SignalHandler.block / SignalHandler._handler; returns undo().  The direct oracle needs only the open wrapper
+    (it is what places the signal); block/_handler recording serves the model correspondence and is skipped when the
+    class no longer has these methods (the correspondence then reports it)."""
     import optparse
-    from mutagen._tools._util import SignalHandler
-    T.sigobj = mod._sig
-    orig_block, orig_handler, orig_parse = SignalHandler.block, SignalHandler._handler, optparse.OptionParser.parse_args
+    from mutagen._tools import _util
+    SignalHandler = getattr(_util, "SignalHandler", None)
+    orig_block = getattr(SignalHandler, "block", None)
+    orig_handler = getattr(SignalHandler, "_handler", None)
+    orig_parse = optparse.OptionParser.parse_args
 
     def traced_open(file, *a, **k):
         idx = None if isinstance(file, int) else T.fileidx(file)
@@ -282,6 +294,7 @@ def install(T, mod):
         T.tick_pre_enter()
         cm = orig_block(self)
         cm.__enter__()                  # self._nosig = True
+        T.depth += 1
         T.rec("E")
         try:
             yield
@@ -291,6 +304,7 @@ def install(T, mod):
                 raise
             return
         T.event("L")                    # tick inside the block, then the code after the yield
+        T.depth -= 1
         cm.__exit__(None, None, None)
 
     def traced_handler(self, signum, frame):
@@ -312,7 +326,10 @@ def install(T, mod):
     T.tick_pre_enter, T.rec = tick_pre_enter, rec
 
     builtins.open = traced_open
-    SignalHandler.block, SignalHandler._handler = traced_block, traced_handler
+    if orig_block is not None:
+        SignalHandler.block = traced_block
+    if orig_handler is not None:
+        SignalHandler._handler = traced_handler
     optparse.OptionParser.parse_args = traced_parse
 
     linefiles = set()
@@ -328,7 +345,7 @@ def install(T, mod):
             return local
 
         def glob(frame, ev, arg):
-            # entry_point() itself is not traced: before _sig.init() has run the handlers are not installed yet
+            # entry_point() itself is not traced: before it has installed the handlers a signal is not the tools' to handle
             if frame.f_code.co_filename in linefiles and frame.f_code.co_name != "entry_point":
                 return local
             return None
@@ -337,7 +354,10 @@ def install(T, mod):
     def undo():
         sys.settrace(None)
         builtins.open = REAL_OPEN
-        SignalHandler.block, SignalHandler._handler = orig_block, orig_handler
+        if orig_block is not None:
+            SignalHandler.block = orig_block
+        if orig_handler is not None:
+            SignalHandler._handler = orig_handler
         optparse.OptionParser.parse_args = orig_parse
     return undo
 
@@ -361,9 +381,7 @@ def prepare(case, wd):
 
 def child_body(job):
     case, wd = job["case"], job["wd"]
-    # the dispositions of a freshly started Python process: SIGINT -> default_int_handler, the others SIG_DFL
-    for s in SIGNAMES:
-        signal.signal(getattr(signal, s), signal.default_int_handler if s == "SIGINT" else signal.SIG_DFL)
+    fresh_dispositions()
     prepare(case, wd)
     os.chdir(wd)
     sys.stdout, sys.stderr = io.StringIO(), io.StringIO()
@@ -371,9 +389,9 @@ def child_body(job):
     mod = importlib.import_module("mutagen._tools." + case.tool)
     res = {"mutagen": os.path.dirname(os.path.dirname(mutagen.__file__))}
     if job["kind"] == "stage":
+        # uninstrumented reference runs (no signal is ever sent here, so the handler objects stay in their initial state)
         for argv in job["invocations"]:
             sys.argv = list(argv)
-            mod._sig.__init__()
             try:
                 rc = mod.entry_point()
             except SystemExit as e:
@@ -398,6 +416,7 @@ def child_body(job):
         except BaseException as e:
             T.active = False
             outcome, code = "Crashed", repr(e)[:200]
+            res["exc"] = type(e).__name__
     finally:
         T.active = False
         undo()
@@ -519,12 +538,15 @@ def build_plan(ctx, case, linemode, par):
     res = run_jobs(stage_jobs + [plain, plain], par)
     P = Plan()
     P.case, P.linemode = case, linemode
-    P.problems = []
+    P.problems = []          # every one is a broken harness expectation (reported as a c20.plan disagreement)
+    P.fatal = False          # no usable undisturbed reference: signalled runs cannot be judged at all
+    P.weak = False           # the per-file unit structure is unknown: judge by whole-file states + exit status only
     P.reported = set()
     for r in res:
         if r.get("error") or r.get("timeout") or "killed_by" in r:
             P.problems.append("undisturbed run failed: %s" % (r.get("error") or r))
     if P.problems:
+        P.fatal = True
         return P
     P.stage_snaps = [r["snap"] for r in res[:len(stage_jobs)]]
     P.mutagen = res[0].get("mutagen")
@@ -532,10 +554,13 @@ def build_plan(ctx, case, linemode, par):
     P.prog, P.names = u1["trace"], u1["names"]
     if u1["trace"] != u2["trace"]:
         P.problems.append("undisturbed trace is not deterministic")
+        P.weak = True
     if u1["outcome"] != "Finished" or "S" in P.prog:
         P.problems.append("undisturbed run ended %s %s" % (u1["outcome"], u1["code"]))
-    if u1["snap"] != P.stage_snaps[-1]:
+        P.fatal = True
+    if u1["snap"] != P.stage_snaps[-1] or u2["snap"] != P.stage_snaps[-1]:
         P.problems.append("instrumented undisturbed run differs from the uninstrumented run (recording changes behaviour)")
+        P.fatal = True
     for j in range(1, len(P.stage_snaps)):
         if P.stage_snaps[j] == P.stage_snaps[j - 1]:
             P.problems.append("stage %d does not change any byte: sample/sub-command cannot show a cut" % j)
@@ -561,6 +586,7 @@ def build_plan(ctx, case, linemode, par):
     P.spans = spans
     if len(spans) != len(P.stage_snaps) - 1:
         P.problems.append("run has %d per-file units, expected %d" % (len(spans), len(P.stage_snaps) - 1))
+        P.weak = True
     P.mprog = [tok_model(t) for t in P.prog]
     return P
 
@@ -580,11 +606,18 @@ def expected_stages(P, t):
 
 
 def check_run(ctx, P, signame, t, r, mode):
-    """R2 + D on one signalled run.  Returns True if the property held."""
+    """D + R2 on one signalled run.  Returns True if the property held.
+
+    D judges the run by the property statement alone -- the files afterwards against the undisturbed runs' files, the
+    exit status, and which file operations still happened -- whatever the recording of block()/_handler shows (handler
+    never ran, unknown handler instance, no Enter seen, tool crashed with KeyboardInterrupt/SystemExit inside the
+    block ...).  R2 (the model predicts the run) is reported separately as a correspondence disagreement and never
+    replaces D's verdict."""
     case = P.case
     data = {"runner": "c20.tool", "case": case.id, "tool": case.tool, "sub": case.sub, "argv": case.argv(), "signal": signame,
             "index": t, "mode": mode, "event": P.prog[t] if 0 <= t < len(P.prog) else None}
     tag = "%s %s" % (case.id, mode)
+    use_model = getattr(ctx, "use_model", True)
 
     reported = []
 
@@ -606,50 +639,65 @@ def check_run(ctx, P, signame, t, r, mode):
     if r.get("timeout"):
         return viol("tool did not terminate after the signal")
     if "killed_by" in r:
-        return viol("tool process killed by signal %d (handler not installed by entry_point)" % r["killed_by"])
+        return viol("tool process killed by signal %d (no handler installed for it by entry_point)" % r["killed_by"])
     if r.get("error"):
         disagree("c20.harness", "%s: child failed: %s" % (tag, r["error"][-300:]), data)
         return True
+    if not r["sent"]:
+        disagree("c20.harness", "%s: run ended before event %d, no signal sent" % (tag, t), data)
+        return True
+    # os.kill(own pid) returns with the signal pending/handled; WHICH Python-level handler ran is the tool's business
     ctx.count("deliveries:" + signame)
     trace = r["trace"]
-    ok = True
-    # ---- D: direct oracle -------------------------------------------------------------------------
-    stages, inunit = expected_stages(P, t)
-    got = r["snap"]
-    if not r["sent"] or not r["delivered"]:
-        disagree("c20.harness", "%s: signal at %d not delivered (sent=%s)" % (tag, t, r["sent"]), data)
-        return True
+    stripped = [tk for tk in trace if tk != "S"]
+    handled = "S" in trace                                  # the class's _handler ran (recorded on the class)
+    prefix = stripped == P.prog[:len(stripped)]
+    weak = P.weak or stripped[:t] != P.prog[:t]             # the unit structure of this run is not the plan's
     if r["late"]:
         ctx.count("late-delivery")
+    ok = True
+    # ---- D: direct oracle -------------------------------------------------------------------------
+    if weak:
+        stages, inunit = list(range(len(P.stage_snaps))), None   # any state with every file whole
+        ctx.count("oracle-whole-files-only")
+    else:
+        stages, inunit = expected_stages(P, t)
+    got = r["snap"]
+    ended = "%s %s" % (r["outcome"], r.get("exc") or r["code"])
     match = [j for j in stages if got == P.stage_snaps[j]]
     if not match:
         whole = [j for j in range(len(P.stage_snaps)) if got == P.stage_snaps[j]]
-        diff = sorted(n for n in set(got) | set(P.stage_snaps[stages[0]]) if got.get(n) != P.stage_snaps[stages[0]].get(n))
+        ref = P.stage_snaps[stages[0] if not weak else -1]
+        diff = sorted(n for n in set(got) | set(ref) if got.get(n) != ref.get(n))
         if whole:
             what = ("files are whole, but the tool %s" % ("continued with further files after the signal" if whole[0] > stages[-1]
                                                           else "did not finish the file it was working on"))
         else:
             what = "file(s) left half-done: directory matches no undisturbed state"
-        ok = viol(what, differing=diff[:6], nosig_at_delivery=r["nosig_at"], state_after_files=whole[:1], expected_after_files=stages)
+        ok = viol(what, differing=diff[:6], inside_block_at_delivery=r["nosig_at"], handler_ran=handled, run_ended=ended,
+                  state_after_files=whole[:1], expected_after_files=stages)
     if r["outcome"] != "Exit" or not r.get("code_true"):
-        ok = viol("run did not end in an aborting SystemExit after the signal (ended %s, code %s)" % (r["outcome"], r["code"]))
-    spos = trace.index("S")
-    after = [i for i, tk in enumerate(trace) if i > spos and tk[0] == "F"]
-    if inunit is None and mode == "event" and after:
-        ok = viol("signal outside any file's operations did not end the run immediately", file_operations_after_signal=len(after))
-    stripped = [tk for tk in trace if tk != "S"]
-    if stripped == P.prog[:len(stripped)]:
-        for i in after:
-            u = P.unit_of_event.get(i - 1)      # index in the program (one S before it)
-            if u is not None and u > stages[-1]:
-                ok = viol("file operation of a later file executed after the signal")
-                break
+        ok = viol("run did not end in an aborting SystemExit after the signal (ended %s)" % ended, handler_ran=handled)
+    if not weak:
+        after = [i for i, tk in enumerate(stripped) if i >= t and tk[0] == "F"]     # executed after the signal was sent
+        if inunit is None and mode == "event" and after:
+            ok = viol("signal outside any file's operations did not end the run immediately", file_operations_after_signal=len(after))
+        if prefix:
+            for i in after:
+                u = P.unit_of_event.get(i)
+                if u is not None and u > stages[-1]:
+                    ok = viol("file operation of a later file executed after the signal")
+                    break
     ctx.oracle_cases += 1
     # ---- R2: the model predicts the run -------------------------------------------------------------
-    if stripped != P.prog[:len(stripped)]:
+    if not handled:
+        disagree("c20.tool", "%s: sig %s at %d (%s): SignalHandler._handler did not run; the run ended %s" %
+                 (tag, signame, t, P.prog[t], ended), data)
+    elif not prefix:
         disagree("c20.tool", "%s: signalled run is not a prefix of the undisturbed program (sig %s at %d; diverges at %d)" %
                      (tag, signame, t, next((i for i, (a, b) in enumerate(zip(stripped, P.prog)) if a != b), len(P.prog))), data)
-    else:
+    elif use_model:
+        spos = trace.index("S")
         woven = P.mprog[:spos] + ["S"] + P.mprog[spos:]
         pr = parse_run(ctx.model.call("sig_run", *woven))
         obs_ops = [tok_model(tk)[1:] for tk in trace if tk[0] == "F"]
@@ -671,35 +719,46 @@ def check_run(ctx, P, signame, t, r, mode):
     return ok
 
 
-def check_case(ctx, case, schedule, linemode, par):
-    """schedule: function (number of events) -> list of (signame, index)"""
+JOB_CHUNK = 96
+
+
+def check_case(ctx, case, schedule, linemode, par, deadline=None):
+    """schedule: function (number of events) -> list of (signame, index); deadline: wall-clock time after which no
+    further signalled runs are started (escalated search)"""
     mode = "line" if linemode else "event"
+    use_model = getattr(ctx, "use_model", True)
     P = build_plan(ctx, case, linemode, par)
-    if P.problems:
-        for p in P.problems:
-            ctx.disagree("c20.plan", "%s %s: %s" % (case.id, mode, p), {"case": case.id, "mode": mode})
+    for p in P.problems:
+        ctx.disagree("c20.plan", "%s %s: %s" % (case.id, mode, p), {"case": case.id, "mode": mode})
+    if P.fatal:                                  # no undisturbed reference to judge signalled runs against
         return P
     if os.path.realpath(P.mutagen) != os.path.realpath(common.REPO):
         ctx.disagree("c20.harness", "child imported mutagen from %s, not %s" % (P.mutagen, common.REPO), {})
     ctx.notes.setdefault("events_per_run", {})["%s/%s" % (case.id, mode)] = len(P.prog)
     ctx.notes.setdefault("mutagen_path", P.mutagen)
-    prot = ctx.model.call("sig_protected", *P.mprog)
-    ctx.corr_cases += 1
-    if prot != "ok 1":
-        k = first_unprotected(P.mprog)
-        ctx.disagree("c20.tool", "%s %s: recorded trace is NOT protected (%s): event %d %s lies outside SignalHandler.block()" %
-                     (case.id, mode, prot, k, P.prog[k] if k is not None else "?"), {"case": case.id, "mode": mode})
-    und = parse_run(ctx.model.call("sig_run", *P.mprog))
-    if und is None or und["out"] != "Finished" or und["steps"] != len(P.prog):
-        ctx.disagree("c20.tool", "%s %s: model does not finish the undisturbed program: %s" % (case.id, mode, und), {"case": case.id})
+    if use_model:
+        prot = ctx.model.call("sig_protected", *P.mprog)
+        ctx.corr_cases += 1
+        if prot != "ok 1":
+            k = first_unprotected(P.mprog)
+            ctx.disagree("c20.tool", "%s %s: recorded trace is NOT protected (%s): event %d %s lies outside SignalHandler.block()" %
+                         (case.id, mode, prot, k, P.prog[k] if k is not None else "?"), {"case": case.id, "mode": mode})
+        und = parse_run(ctx.model.call("sig_run", *P.mprog))
+        if und is None or und["out"] != "Finished" or und["steps"] != len(P.prog):
+            ctx.disagree("c20.tool", "%s %s: model does not finish the undisturbed program: %s" % (case.id, mode, und), {"case": case.id})
     todo = schedule(len(P.prog))
-    jobs = [{"case": case, "kind": "trace", "at": t, "sig": s, "linemode": linemode} for s, t in todo]
-    res = run_jobs(jobs, par)
-    bad = 0
-    for (s, t), r in zip(todo, res):
-        if not check_run(ctx, P, s, t, r, mode):
-            bad += 1
-    ctx.count("runs:%s/%s" % (case.id, mode), len(todo))
+    done = 0
+    chunk = JOB_CHUNK if deadline is not None else max(1, len(todo))
+    for c in range(0, len(todo), chunk):
+        if deadline is not None and time.time() > deadline:
+            ctx.count("runs-skipped-search-budget", len(todo) - done)
+            break
+        part = todo[c:c + chunk]
+        jobs = [{"case": case, "kind": "trace", "at": t, "sig": s, "linemode": linemode} for s, t in part]
+        for (s, t), r in zip(part, run_jobs(jobs, par)):
+            check_run(ctx, P, s, t, r, mode)
+        done += len(part)
+    ctx.count("runs:%s/%s" % (case.id, mode), done)
     return P
 
 
@@ -762,12 +821,14 @@ def sm_lists(rng, maxlen, nrandom):
 
 
 def sm_child(lists, wfd):
-    """drive the real class: Sig = a real signal through the handlers installed by init()"""
+    """drive the real class: Sig = a real signal through whatever init() installed.  lists: [(events, signal name)].
+    Every list starts from the dispositions of a freshly started interpreter (the state in which a console script
+    calls init()); one result line is written per list as soon as it is done, so that a run in which the signal
+    kills the process (no handler installed for it) still tells the parent which list did it."""
     try:
         from mutagen._tools._util import SignalHandler
-        sigs = [signal.SIGINT, signal.SIGTERM, signal.SIGHUP]
-        out = []
-        for n, l in enumerate(lists):
+        for l, signame in lists:
+            fresh_dispositions()
             h = SignalHandler()
             h.init()
             stack, ops, steps, res = [], [], 0, "Finished"
@@ -775,7 +836,7 @@ def sm_child(lists, wfd):
                 for e in l:
                     steps += 1
                     if e == "S":
-                        os.kill(os.getpid(), sigs[n % 3])
+                        os.kill(os.getpid(), getattr(signal, signame))
                         _nop()
                     elif e == "E":
                         cm = h.block()
@@ -800,42 +861,63 @@ def sm_child(lists, wfd):
                 res = "Exit"
             except ValueError:
                 res = "Crashed"
-            out.append([res, steps, ops, bool(h._interrupted), bool(h._nosig)])
-        data = json.dumps(out).encode()
-        off = 0
-        while off < len(data):
-            off += os.write(wfd, data[off:off + 65536])
+            except BaseException as exc:          # e.g. KeyboardInterrupt: the signal went to somebody else's handler
+                res = "Raised:" + type(exc).__name__
+            line = json.dumps([res, steps, ops, bool(getattr(h, "_interrupted", None)), bool(getattr(h, "_nosig", None))]).encode() + b"\n"
+            off = 0
+            while off < len(line):
+                off += os.write(wfd, line[off:])
     finally:
         os._exit(0)
 
 
+def drive_class(lists):
+    """observations of the real class for every (events, signal) of lists, in order; a list during which the process
+    died is observed as ["Killed:<signo>", ...] and the remaining lists are driven by a new child"""
+    obs, restarts = [], 0
+    while len(obs) < len(lists) and restarts <= 12:
+        r, w = os.pipe()
+        sys.stdout.flush()
+        sys.stderr.flush()
+        pid = os.fork()
+        if pid == 0:
+            os.close(r)
+            sm_child(lists[len(obs):], w)
+        os.close(w)
+        chunks = []
+        while True:
+            b = os.read(r, 1 << 20)
+            if not b:
+                break
+            chunks.append(b)
+        os.close(r)
+        _, status = os.waitpid(pid, 0)
+        for line in b"".join(chunks).split(b"\n"):
+            if line:
+                try:
+                    obs.append(json.loads(line.decode()))
+                except ValueError:
+                    return obs, "unparsable output of the child driving SignalHandler"
+        if len(obs) < len(lists):
+            restarts += 1
+            if os.WIFSIGNALED(status):
+                obs.append(["Killed:%d" % os.WTERMSIG(status), None, None, None, None])
+            else:
+                return obs, "child driving SignalHandler ended early (exit status %r) at list %d" % (status, len(obs))
+    return obs, (None if len(obs) == len(lists) else "child driving SignalHandler was killed %d times" % restarts)
+
+
 def state_machine_correspondence(ctx, maxlen, nrandom):
     lists = sm_lists(ctx.rng, maxlen, nrandom)
-    r, w = os.pipe()
-    sys.stdout.flush()
-    pid = os.fork()
-    if pid == 0:
-        os.close(r)
-        sm_child(lists, w)
-    os.close(w)
-    chunks = []
-    while True:
-        b = os.read(r, 1 << 20)
-        if not b:
-            break
-        chunks.append(b)
-    os.close(r)
-    _, status = os.waitpid(pid, 0)
-    try:
-        obs = json.loads(b"".join(chunks).decode())
-    except ValueError:
-        obs = None
-    if obs is None or len(obs) != len(lists):
-        ctx.disagree("c20.class", "driving the real SignalHandler failed (exit status %r)" % (status,), {})
-        return
+    pairs = [(l, SIGNAMES[n % 3]) for n, l in enumerate(lists)]
+    obs, problem = drive_class(pairs)
+    if problem:
+        ctx.disagree("c20.class", "driving the real SignalHandler failed: %s" % problem, {})
     nd = 0
-    for l, o in zip(lists, obs):
-        pr = parse_run(ctx.model.call("sig_run", *l)) if l else parse_run(ctx.model.call("sig_run"))
+    for (l, signame), o in zip(pairs, obs):
+        pr = None
+        if getattr(ctx, "use_model", True):
+            pr = parse_run(ctx.model.call("sig_run", *l)) if l else parse_run(ctx.model.call("sig_run"))
         ctx.corr_cases += 1
         ctx.count("class-corr:%s" % o[0])
         ctx.case(("sm", tuple(l)) if "S" in l else None)
@@ -843,12 +925,13 @@ def state_machine_correspondence(ctx, maxlen, nrandom):
         if got != o:
             nd += 1
             if nd <= 3:
-                ctx.disagree("c20.class", "events %s: real SignalHandler %s, model %s" % (" ".join(l), o, got), {"events": l})
+                ctx.disagree("c20.class", "events %s (%s): real SignalHandler %s, model %s" % (" ".join(l), signame, o, got),
+                             {"events": l, "signal": signame})
             # is the difference a property failure?  a protected, exception-free program whose blocked work is cut or continued
-            direct_class_oracle(ctx, l, o)
+            direct_class_oracle(ctx, l, o, signame)
 
 
-def direct_class_oracle(ctx, l, o):
+def direct_class_oracle(ctx, l, o, signame="SIGINT"):
     """property statement on the class alone (no model): used when the class and the model differ"""
     prog = [e for e in l if e != "S"]
     if "X" in prog or "S" not in l or first_unprotected(prog) is not None:
@@ -872,8 +955,11 @@ def direct_class_oracle(ctx, l, o):
         done = pre
     want_ops = [e[1:] for e in done if e[0] == "F"]
     if o[0] != "Exit" or o[2] != want_ops:
-        ctx.violation("oracle", "SignalHandler: " + ("blocked work not completed / run not aborted" if inside else "unblocked signal did not abort at once"),
-                      {"runner": "c20.class", "events": l, "observed": o, "expected_ops": want_ops})
+        key = "SignalHandler: " + ("blocked work not completed / run not aborted" if inside else "unblocked signal did not abort at once")
+        ctx.count("class-oracle-failures")
+        if not any(v["what"] == key and v["data"].get("signal") == signame for v in ctx.violations):   # one schedule per kind and signal
+            ctx.violation("oracle", key, {"runner": "c20.class", "events": l, "signal": signame, "observed": o, "expected_ops": want_ops,
+                                          "dispositions_before_init": "fresh interpreter (SIGINT default_int_handler, SIGTERM/SIGHUP SIG_DFL)"})
 
 
 # ------------------------------------------------------------------------------------------------
@@ -961,7 +1047,6 @@ def line_schedule(rng):
 def run(ctx):
     par = parallelism()
     try:
-        state_machine_correspondence(ctx, 7 if ctx.thorough else 5, 3000 if ctx.thorough else 400)
         cases = make_cases(case_rng(ctx))
         failing = set()
         for case in cases:
@@ -976,30 +1061,44 @@ def run(ctx):
             if ctx.thorough or case.id in ("mid3cp.copy", "mid3v2.delete-v1"):
                 check_case(ctx, case, line_schedule(ctx.rng), True, par)
                 failing = set(v["data"].get("case") for v in ctx.violations if v["data"].get("case"))
+        # the class on its own (after the tools, so that a tool-level failing schedule is the first one listed)
+        state_machine_correspondence(ctx, 7 if ctx.thorough else 5, 3000 if ctx.thorough else 400)
         vm_crosscheck(ctx)
         ctx.notes["real_signal_deliveries"] = sum(v for k, v in ctx.hist.items() if k.startswith("deliveries:"))
     finally:
         cleanup()
 
 
+SEARCH_BUDGET = {"quick": 75, "thorough": 1500}       # seconds of wall clock for the escalated search
+
+
 def search(ctx, broken):
-    """a proof or the correspondence broke: every index x every signal on every case (event mode), then line mode"""
+    """a proof or the correspondence broke and run() found no failing schedule: every index x every signal (event
+    mode) on the invocations run() sampled, then on the remaining ones, then line mode -- within a wall-clock budget
+    (run() has already delivered SIGINT at every event index of the quick invocations, so what is new here is the
+    other two signals at the indices the stride skipped, the thorough-only invocations and more source lines)"""
     before = len(ctx.violations)
     par = parallelism()
+    deadline = time.time() + SEARCH_BUDGET["thorough" if ctx.thorough else "quick"]
+    tried = []
     try:
         cases = make_cases(case_rng(ctx))
-        for case in cases:
-            check_case(ctx, case, full_schedule, False, par)
-            if len(ctx.violations) > before + 8:
+        plan = [(c, False) for c in cases if c.quick] + [(c, False) for c in cases if not c.quick] + [(c, True) for c in cases if c.quick]
+        for case, linemode in plan:
+            if time.time() > deadline or len(ctx.violations) > before + 8:
                 break
-        if len(ctx.violations) == before:
-            for case in cases:
-                if case.quick:
-                    check_case(ctx, case, line_schedule(ctx.rng), True, par)
+            if linemode and len(ctx.violations) > before:
+                break
+            if ctx.thorough and not linemode:
+                continue                       # run() did exactly this
+            check_case(ctx, case, line_schedule(ctx.rng) if linemode else full_schedule, linemode, par, deadline)
+            tried.append("%s/%s" % (case.id, "line" if linemode else "event"))
     finally:
         cleanup()
-    ctx.notes["search"] = "every event index x 3 signals on %d invocations (+ line mode) found %d failing schedules" % (
-        len(cases), len(ctx.violations) - before)
+    ctx.notes["search"] = "every event index x 3 signals on %d invocation/mode pairs%s found %d failing schedules" % (
+        len(tried), " (stopped by the %d s budget; %d runs skipped)" % (SEARCH_BUDGET["thorough" if ctx.thorough else "quick"],
+                                                                        ctx.hist.get("runs-skipped-search-budget", 0))
+        if time.time() > deadline else "", len(ctx.violations) - before)
 
 
 def replay(ctx, payload):
@@ -1009,21 +1108,11 @@ def replay(ctx, payload):
             run(ctx)
             return bool(ctx.violations or ctx.disagreements)
         if d["runner"] == "c20.class":
-            l = d["events"]
-            r, w = os.pipe()
-            pid = os.fork()
-            if pid == 0:
-                os.close(r)
-                sm_child([l], w)
-            os.close(w)
-            raw = b""
-            while True:
-                b = os.read(r, 1 << 16)
-                if not b:
-                    break
-                raw += b
-            os.waitpid(pid, 0)
-            direct_class_oracle(ctx, l, json.loads(raw.decode())[0])
+            l, signame = d["events"], d.get("signal", "SIGINT")
+            obs, problem = drive_class([(l, signame)])
+            if not obs:
+                return True
+            direct_class_oracle(ctx, l, obs[0], signame)
             return bool(ctx.violations)
         import random
         cases = [c for c in make_cases(random.Random("C20-cases-%d" % payload.get("seed", ctx.seed))) if c.id == d["case"]]
@@ -1034,7 +1123,7 @@ def replay(ctx, payload):
             ctx.notes["replay"] = "invocation rebuilt from the seed differs from the recorded argv"
         linemode = d["mode"] == "line"
         P = build_plan(ctx, case, linemode, 2)
-        if P.problems:
+        if P.fatal:
             return True
         r = run_jobs([{"case": case, "kind": "trace", "at": d["index"], "sig": d["signal"], "linemode": linemode}], 1)[0]
         return not check_run(ctx, P, d["signal"], d["index"], r, d["mode"])
